@@ -831,6 +831,31 @@ def check_C14(ctx, rt):
             if real != model:
                 st["disagreements"] += 1
                 ctx.disagreements.append(("alphabet", l, g, sorted(real), {"batch": batch}))
+    # the utilities are functions of their argument: calling OTHER entry points on the same strings in between
+    # (padding encoders, the decoder, the utilities themselves) must not change what they return
+    for items in cases[:rt.n(400, 8000)]:
+        s = "".join(items)
+        try:
+            before = (list(sf.split_selfies(s)), sf.len_selfies(s), sf.get_alphabet_from_selfies([s]))
+        except Exception:
+            continue
+        vocab = {sym: i for i, sym in enumerate(dict.fromkeys(items + ["[nop]"]))}
+        for call in (lambda: sf.selfies_to_encoding(s, vocab, pad_to_len=len(items) + 3, enc_type="both"),
+                     lambda: sf.batch_selfies_to_flat_hot([s, s], vocab, pad_to_len=len(items) + 5),
+                     lambda: sf.selfies_to_encoding(s, vocab, pad_to_len=-1, enc_type="label"),
+                     lambda: sf.decoder(s), lambda: sf.get_alphabet_from_selfies([s, "[nop]" + s])):
+            try:
+                call()
+            except Exception:
+                pass
+        ctx.evaluations += 1
+        after = (list(sf.split_selfies(s)), sf.len_selfies(s), sf.get_alphabet_from_selfies([s]))
+        if after != before:
+            add_violation(ctx, "C14:history-dependent",
+                          "a tokenisation utility returns something else after other entry points were called on the same string",
+                          string=s[:300], before=[before[0][:12], before[1], sorted(before[2])[:12]],
+                          after=[after[0][:12], after[1], sorted(after[2])[:12]])
+            break
     # malformed strings: same items / same error class
     lines, expected = [], []
     for s in gens.gen_malformed_selfies(rt.rng, rt.n(500, 10000), ["".join(c) for c in cases[:200]]):
